@@ -43,6 +43,9 @@ pub fn assumptions(prop: &str) -> Vec<String> {
 }
 
 pub fn write(prop: &str, tier: &str, seed: u64, m: &WorkerOut, nviol: u64, wall: f64, workers: u64) {
+    if std::env::var("VERIF_NO_EVIDENCE").is_ok() {
+        return; // secondary pass (release-mode slice): the primary pass owns the evidence file
+    }
     let mut faults = serde_json::Map::new();
     let mut probes = serde_json::Map::new();
     let mut events = serde_json::Map::new();
